@@ -114,6 +114,13 @@ func constructors2(T, T2 octosql.Type) []octosql.Type {
 	}
 }
 
+func c10NestEvery(thorough bool) int {
+	if thorough {
+		return 8
+	}
+	return 16
+}
+
 func buildUniverse(thorough bool) (*universe, map[string]int) {
 	u := &universe{seen: map[string]bool{}}
 	sizes := map[string]int{}
@@ -146,10 +153,13 @@ func buildUniverse(thorough bool) (*universe, map[string]int) {
 	sizes["round1"] = len(u.list)
 	r1 := append([]ty{}, u.list...)
 	// closure under TypeSum: every round-1 type with a set of partners (all of round 1 in thorough)
-	partners := r1
-	if !thorough {
-		partners = nil
-		for _, s := range []string{"Null", "Int", "String", "[Int]", "{a: Int}", "{a: Int; b: String}", "(Int)", "(Int, Int)"} {
+	partners := []ty{}
+	{
+		names := []string{"Null", "Int", "String", "[Int]", "{a: Int}", "{a: Int; b: String}", "(Int)", "(Int, Int)"}
+		if thorough {
+			names = append(names, "Float", "Boolean", "Time", "[String]", "[Null]", "[]", "{b: Int}", "{a: String}", "{a: Null}", "{}", "(String)", "(Null)", "(Int, String)", "()", "{b: Int; a: String}")
+		}
+		for _, s := range names {
 			for _, t := range r1 {
 				if t.s == s {
 					partners = append(partners, t)
@@ -171,7 +181,7 @@ func buildUniverse(thorough bool) (*universe, map[string]int) {
 			continue
 		}
 		nestN++
-		if !thorough && nestN%16 != 1 && i > 0 {
+		if nestN%c10NestEvery(thorough) != 1 && i > 0 {
 			continue
 		}
 		for _, x := range constructors1(t.t) {
@@ -365,10 +375,38 @@ func pairReplay(a, b ty, extra map[string]interface{}) map[string]interface{} {
 	return m
 }
 
-func (k0 *checker) checkPair(u *universe, ai, bi int) {
+// counts is a per-row counter buffer (the shared counters take a global lock).
+type counts map[string]int
+
+func (m counts) Count(name string, n int) { m[name] += n }
+
+// violation reports through c.Violation, but at most 3 per key and row of the pair matrix; the
+// rest is only counted (counter "violations_counted_only/<key>"): the two TypeSum findings fire on
+// a large share of all pairs and every c.Violation takes the global lock.
+func (m counts) violation(c *core.Ctx, key string, what func() string, replay func() map[string]interface{}) {
+	m["__v/"+key]++
+	if m["__v/"+key] > 3 {
+		m["violations_counted_only/"+key]++
+		return
+	}
+	c.Violation(key, what(), replay())
+}
+
+func (m counts) flush(c *core.Ctx) {
+	for k := range m {
+		if strings.HasPrefix(k, "__v/") {
+			delete(m, k)
+		}
+	}
+	for k, v := range m {
+		c.Count(k, v)
+	}
+}
+
+func (k0 *checker) checkPair(u *universe, ai, bi int, cnt counts) {
 	c := k0.c
 	a, b := u.list[ai], u.list[bi]
-	c.Eval(1)
+	cnt.Count("__eval", 1)
 	var sum, sumBA octosql.Type
 	var inter *octosql.Type
 	if p, msg := core.Try(func() {
@@ -394,9 +432,9 @@ func (k0 *checker) checkPair(u *universe, ai, bi int) {
 	for _, x := range []ty{a, b} {
 		ok := x.t.Is(sum) == is
 		if !ok {
-			c.Violation(k.pfx()+sumKey(a.t, b.t, x.t, sum), fmt.Sprintf("TypeSum(%s, %s) = %s is not an upper bound of %s (Is = %d)", a.s, b.s, sums, x.s, x.t.Is(sum)),
-				pairReplay(a, b, map[string]interface{}{"sum": sums, "law": "upper-bound"}))
-			c.Count("law/upper-bound/violated", 1)
+			cnt.violation(c, k.pfx()+sumKey(a.t, b.t, x.t, sum), func() string { return fmt.Sprintf("TypeSum(%s, %s) = %s is not an upper bound of %s (Is = %d)", a.s, b.s, sums, x.s, x.t.Is(sum)) },
+				func() map[string]interface{} { return pairReplay(a, b, map[string]interface{}{"sum": sums, "law": "upper-bound"}) })
+			cnt.Count("law/upper-bound/violated", 1)
 			break
 		}
 		// value level: every universe value of x is a value of the sum
@@ -412,22 +450,22 @@ func (k0 *checker) checkPair(u *universe, ai, bi int) {
 			}
 		}
 	}
-	c.Count("law/upper-bound/checked", 1)
+	cnt.Count("law/upper-bound/checked", 1)
 	// commutative
 	if !sum.Equals(sumBA) || !sumBA.Equals(sum) {
 		c.Violation(k.pfx()+"typesum-not-commutative", fmt.Sprintf("TypeSum(%s, %s) = %s but TypeSum(b, a) = %s (not Equals)", a.s, b.s, sums, render(sumBA)),
 			pairReplay(a, b, map[string]interface{}{"sum": sums, "sum_ba": render(sumBA), "law": "commutative"}))
 	}
-	c.Count("law/commutative/checked", 1)
+	cnt.Count("law/commutative/checked", 1)
 	// intersection
 	if inter != nil {
-		c.Count("law/intersection/non-nil", 1)
+		cnt.Count("law/intersection/non-nil", 1)
 		ins := render(*inter)
 		for _, x := range []ty{a, b} {
 			if inter.Is(x.t) != is {
-				c.Violation(k.pfx()+interKey(a.t, b.t, *inter), fmt.Sprintf("TypeIntersection(%s, %s) = %s is not contained in %s (Is = %d)", a.s, b.s, ins, x.s, inter.Is(x.t)),
-					pairReplay(a, b, map[string]interface{}{"intersection": ins, "law": "intersection-contained"}))
-				c.Count("law/intersection/violated", 1)
+				cnt.violation(c, k.pfx()+interKey(a.t, b.t, *inter), func() string { return fmt.Sprintf("TypeIntersection(%s, %s) = %s is not contained in %s (Is = %d)", a.s, b.s, ins, x.s, inter.Is(x.t)) },
+					func() map[string]interface{} { return pairReplay(a, b, map[string]interface{}{"intersection": ins, "law": "intersection-contained"}) })
+				cnt.Count("law/intersection/violated", 1)
 				break
 			}
 		}
@@ -442,18 +480,18 @@ func (k0 *checker) checkPair(u *universe, ai, bi int) {
 			}
 		}
 	} else {
-		c.Count("law/intersection/nil", 1)
+		cnt.Count("law/intersection/nil", 1)
 		// not demanded by the statement (only counted): nil although a universe value lies in both
 		for vi := range k.vs {
 			if k.match[vi][ai] && k.match[vi][bi] {
-				c.Count("not_judged/intersection_nil_but_common_value", 1)
+				cnt.Count("not_judged/intersection_nil_but_common_value", 1)
 				break
 			}
 		}
 	}
 	if a.t.Is(b.t) != is && b.t.Is(a.t) != is {
 		c.Nontrivial(a.s + " + " + b.s)
-		c.Count("pairs/incomparable", 1)
+		cnt.Count("pairs/incomparable", 1)
 		if (ai*131+bi)%4001 == 0 {
 			in := "nil"
 			if inter != nil {
@@ -462,7 +500,7 @@ func (k0 *checker) checkPair(u *universe, ai, bi int) {
 			c.Sample(map[string]interface{}{"a": a.s, "b": b.s, "TypeSum": sums, "TypeIntersection": in})
 		}
 	} else {
-		c.Count("pairs/comparable", 1)
+		cnt.Count("pairs/comparable", 1)
 	}
 }
 
@@ -699,9 +737,13 @@ func Run(c *core.Ctx) core.FinishOpts {
 		k.checkSingle(u, ti)
 	}
 	core.Parallel(n, 16, func(ai int) {
+		cnt := counts{}
 		for bi := 0; bi < n; bi++ {
-			k.checkPair(u, ai, bi)
+			k.checkPair(u, ai, bi, cnt)
 		}
+		c.Eval(cnt["__eval"])
+		delete(cnt, "__eval")
+		cnt.flush(c)
 	})
 	// the algebra must not have modified its arguments (shared slices)
 	for i := range u.list {
